@@ -131,7 +131,11 @@ func (p *ProjectRunner) runProcess(config *types.ProcessConfig) {
 		log.Error().Msgf("Error: Can't get log: %s using empty buffer", err.Error())
 		procLog = pclog.NewLogBuffer(0)
 	}
-	procState, _ := p.GetProcessState(config.ReplicaName)
+	// the status record registered under the name, not the one of an instance that is
+	// still registered: after an update the old (stopped) instance must not share it
+	p.statesMutex.Lock()
+	procState := p.processStates[config.ReplicaName]
+	p.statesMutex.Unlock()
 	isMain := config.Name == p.mainProcess
 	hasMain := p.mainProcess != ""
 	printLogs := !hasMain && !p.isTuiOn
